@@ -174,7 +174,15 @@ func run(repo, prop, tier, evPath, verifDir string, seed int, rules []ruleSpec, 
 				violated = append(violated, o)
 			}
 		case StUndecided:
-			undecidedReasons = append(undecidedReasons, fmt.Sprintf("%s at %s: %s", o.Key, o.Site, o.Why))
+			// An obligation about /repo's code that the rules can neither discharge nor refute (the construct the
+			// rule is anchored on is gone or no longer recognisable): the property is not shown to hold, which a
+			// static check has to report. The record and the message say "undischarged", not "violated".
+			if seenKey[o.Key] {
+				continue
+			}
+			seenKey[o.Key] = true
+			o.Why = "UNDISCHARGED (the rule cannot follow this code any more, so the property is not established): " + o.Why
+			violated = append(violated, o)
 		}
 	}
 	// stale known findings (informational)
@@ -218,7 +226,7 @@ func run(repo, prop, tier, evPath, verifDir string, seed int, rules []ruleSpec, 
 	sort.Slice(violated, func(i, j int) bool { return violated[i].Key < violated[j].Key })
 	for i, o := range violated {
 		p := filepath.Join(vdir, fmt.Sprintf("%s-%d.json", prop, i+1))
-		rec := map[string]any{"property": prop, "rule": o.Rule, "key": o.Key, "site": o.Site, "why": o.Why, "path": o.Path, "tier": tier}
+		rec := map[string]any{"property": prop, "rule": o.Rule, "key": o.Key, "site": o.Site, "why": o.Why, "path": o.Path, "tier": tier, "status": o.Status}
 		b, _ := json.MarshalIndent(rec, "", " ")
 		os.WriteFile(p, b, 0o644)
 		vpaths = append(vpaths, p)
@@ -227,7 +235,11 @@ func run(repo, prop, tier, evPath, verifDir string, seed int, rules []ruleSpec, 
 	writeEvidence(evPath, prop, tier, seed, c, violated, known, undecidedReasons, extra, time.Since(t0), propDocs[prop])
 
 	for i, o := range violated {
-		fmt.Printf("violated: rule=%s key=%s site=%s why=%s\n", o.Rule, o.Key, o.Site, o.Why)
+		word := "violated"
+		if o.Status == StUndecided {
+			word = "undischarged"
+		}
+		fmt.Printf("%s: rule=%s key=%s site=%s why=%s\n", word, o.Rule, o.Key, o.Site, o.Why)
 		fmt.Printf("VIOLATION property=%s replay=%s\n", prop, vpaths[i])
 	}
 	if len(violated) > 0 {
